@@ -1,9 +1,9 @@
 (* Pinned statements for C15: compiled on every check run. A statement weakened in Props/ fails here. *)
-From Coq Require Import List String.
+From Coq Require Import List String Permutation.
 From TS Require Import Model.Str Model.Outcome Model.Unicode Model.Syntax Model.Attrs Model.Types Model.Parse.
 From TS Require Import Model.Lang.TypeScript Model.Lang.Kotlin Model.Lang.Swift Model.Lang.Scala Model.Lang.Go Model.Lang.Python.
-From TS Require Import Spec.Lexers Spec.C15Spec.
-From TS Require Proofs.C15.
+From TS Require Import Spec.Lexers Spec.C15Spec Spec.C15Render.
+From TS Require Proofs.C15 Proofs.C15_Render Proofs.C15_Kotlin.
 Import ListNotations.
 From TS Require Props.C15.
 
@@ -115,3 +115,17 @@ Print Assumptions Props.C15.C15_ts_refuted.
 Goal Proofs.C15.c15_refutes C15py (lit "alpha """""" beta").
 Proof. exact Props.C15.C15_py_refuted. Qed.
 Print Assumptions Props.C15.C15_py_refuted.
+Goal forall it,
+  Permutation (c15_item_docs_helpers_first it) (c15_item_generated it ++ c15_item_docs it).
+Proof. exact Props.C15.C15_helpers_first_perm. Qed.
+Print Assumptions Props.C15.C15_helpers_first_perm.
+Goal forall (cfg : kt_config) it text,
+  kt_write_item cfg it = Ok text ->
+  exists parts,
+    text = text_of (c15_file_pieces C15kt parts) /\
+    docs_of (c15_file_pieces C15kt parts) = c15_item_docs_helpers_first it /\
+    (Forall (c15_code_neutral C15kt) parts ->
+     c15_contained C15kt LCode (mark (c15_file_pieces C15kt parts)) =
+     forallb safe_kt (c15_item_docs_helpers_first it)).
+Proof. exact Props.C15.C15_kt_render_partial. Qed.
+Print Assumptions Props.C15.C15_kt_render_partial.
